@@ -354,15 +354,9 @@ def find_urls(data: bytes) -> list[Node]:
                 group = group[:close]
         if not is_url(group):
             continue
-        out.append(
-            Node(
-                URL_TYPE,
-                *normalize_percent_encoding(group),
-                start,
-                end,
-                children=parse_url(group),
-            )
-        )
+        url, obfuscation = normalize_percent_encoding(group)
+        # The parts are children of the normalized url, so they have to index into it and not into the raw text
+        out.append(Node(URL_TYPE, url, obfuscation, start, end, children=parse_url(url)))
     return out
 
 
